@@ -40,6 +40,15 @@ package executable
 //@   modifies nothing
 //@   ensures pid == 0 ==> !b
 
+// C17 (a launch that fails is reported as FAILED - it does not take the executor down): the launch goroutine aims the
+// TERM/INT/KILL escalation only at a child that was actually started; after a failed Start there is no process
+// (taskCmd.Process is nil) and nothing to signal
+//@ closure (*ControllableTask).Launch #1
+//@   property C17
+//@   ghostvar started bool = false
+//@   on aftercall (*exec.Cmd).Start : started = (result == nil)
+//@   on call (*ControllableTask).doTermIntKill : assert started
+
 //@ func (t *ControllableTask) doTermIntKill(pid int) (err error)
 //@   property C17
 //@   ghostvar lastGone bool = false
